@@ -126,9 +126,15 @@ def matrix_from_half_blocks(text, variant, side):
         if len(row) != side:
             raise Unreadable(f"row {r}: {len(row)} cells, expected {side}")
         cells = []
-        for (colour, _ink, fg, bg) in row:
+        for c, (colour, ink, fg, bg) in enumerate(row):
             if fg != DEFAULT and bg != DEFAULT and fg == bg:
                 raise Unreadable(f"row {r}: foreground equals background")
+            if variant == "tty" and (fg if ink else bg) == DEFAULT:
+                # the tty variant exists to *force* colours: a half cell of the framed
+                # matrix whose colour is left to the terminal's default does not follow
+                # its escape convention (the spare half row below is not part of it)
+                raise Unreadable(f"cell ({r},{c}): {'foreground' if ink else 'background'} "
+                                 f"colour left to the terminal default in the tty variant")
             cells.append(colour == DARK)
         out.append(cells)
     return out
